@@ -22,7 +22,12 @@ func Build(dir string) (string, error) {
 		repo = "/repo"
 	}
 	bin := filepath.Join(dir, "mltwist")
-	cmd := exec.Command("go", "build", "-o", bin, "./cmd/mltwist")
+	args := []string{"build", "-o", bin}
+	if ov := os.Getenv("VERIF_EXTRA_OVERLAY"); ov != "" {
+		// detection demonstrations replace repository files through an overlay
+		args = append(args, "-overlay", ov)
+	}
+	cmd := exec.Command("go", append(args, "./cmd/mltwist")...)
 	cmd.Dir = repo
 	out, err := cmd.CombinedOutput()
 	if err != nil {
